@@ -152,10 +152,19 @@ pub fn json_str(val: impl fmt::Display) -> impl fmt::Display {
 
     impl fmt::Write for WriteJsonStr<'_, '_> {
         fn write_str(&mut self, mut s: &str) -> fmt::Result {
-            while let Some(idx) = s.find(['"', '\\']) {
+            // Quotes, backslashes and control characters need to be escaped.
+            // They are all ASCII, so taking a single byte below is fine.
+            while let Some(idx) = s.find(|ch: char| {
+                ch == '"' || ch == '\\' || ch < '\u{20}'
+            }) {
                 self.0.write_str(&s[..idx])?;
-                self.0.write_str("\\")?;
-                write!(self.0, "{}", char::from(s.as_bytes()[idx]))?;
+                match s.as_bytes()[idx] {
+                    ch @ (b'"' | b'\\') => {
+                        self.0.write_str("\\")?;
+                        write!(self.0, "{}", char::from(ch))?;
+                    }
+                    ch => write!(self.0, "\\u{:04x}", ch)?,
+                }
                 s = &s[idx + 1..];
             }
             self.0.write_str(s)
